@@ -11,6 +11,7 @@ import (
 	"os"
 	"reflect"
 	"runtime"
+	"strconv"
 	"sync/atomic"
 	"testing"
 	"time"
@@ -324,12 +325,23 @@ func sameState(a, b reflect.Value, d int) bool {
 }
 
 // Yield lets every other goroutine run until it blocks (natively: a short sleep).
-func Yield() { time.Sleep(3 * time.Millisecond); checkSide() }
+func Yield() { time.Sleep(time.Duration(timeScale) * 3 * time.Millisecond); checkSide() }
+
+// timeScale (VERIF_TIMESCALE) slows the native harness clock for replays on a loaded machine.
+var timeScale = envScale()
+
+func envScale() int {
+	n, err := strconv.Atoi(os.Getenv("VERIF_TIMESCALE"))
+	if err != nil || n < 1 {
+		return 1
+	}
+	return n
+}
 
 // TimerDuration is the duration harnesses give to the timers of the code under test; natively
 // FireTimer waits long enough for such a timer to expire. Under the engine timers fire only when the
 // harness says so.
-const TimerDuration = 15 * time.Millisecond
+var TimerDuration = time.Duration(timeScale) * 15 * time.Millisecond
 
 func TimerPending() bool { return true }
 func FireTimer() bool    { time.Sleep(3 * TimerDuration); checkSide(); return true }
